@@ -3,7 +3,7 @@
 MC_C11 (Names.tla): TLC checks the binary-search model over the keyword table
 for every needle (and shows it failing on an unsorted table), and emits every
 name of the pool.  The driver places every name at every position (response
-field, alias, variable, input-object field, enum value) under both
+field, alias, variable, input-object field, @oneOf input member, enum value) under both
 normalizations, compiles the generated code and observes the JSON keys /
 strings on the wire.
 """
@@ -13,7 +13,7 @@ from consumer import Consumers
 from vlib import Check, ToolError
 
 PROP = "C11"
-POSITIONS = ["field", "alias", "variable", "inputfield", "enumvalue"]
+POSITIONS = ["field", "alias", "variable", "inputfield", "oneoffield", "enumvalue"]
 
 
 def snake(n):
@@ -47,7 +47,7 @@ def build(names, pos, norm, workdir, tag):
     types = []
     qfields = [{"name": "x", "type": tr("Int"), "dep": None}]
     obj_fields = [{"name": "x", "type": tr("Int"), "dep": None}]
-    vars_, sel, in_fields, enum_vals = [], [], [], []
+    vars_, sel, in_fields, enum_vals, one_fields = [], [], [], [], []
     if pos == "field":
         obj_fields += [{"name": n, "type": tr("Int"), "dep": None} for n in names]
         sel = "  o {\n" + "\n".join("    %s" % n for n in names) + "\n  }"
@@ -64,6 +64,11 @@ def build(names, pos, norm, workdir, tag):
         vars_ = ["$inp: In"]
         sel = "  x"
         payload = None
+    elif pos == "oneoffield":
+        one_fields = [{"name": n, "type": tr("Int")} for n in names]
+        vars_ = ["$one: One"]
+        sel = "  x"
+        payload = None
     else:
         enum_vals = list(names)
         obj_fields.append({"name": "es", "type": tr("E", ["R", "L", "R"]), "dep": None})
@@ -76,6 +81,8 @@ def build(names, pos, norm, workdir, tag):
         types.append({"kind": "ENUM", "name": "E", "values": enum_vals})
     if in_fields:
         types.append({"kind": "INPUT_OBJECT", "name": "In", "inputFields": in_fields})
+    if one_fields:
+        types.append({"kind": "INPUT_OBJECT", "name": "One", "oneOf": True, "inputFields": one_fields})
     qfields.append({"name": "o", "type": tr("Obj", ["R"]), "dep": None})
     types.append({"kind": "OBJECT", "name": "Query", "fields": qfields, "interfaces": []})
     schema = {"types": types, "roots": {"query": "Query"}, "explicit_roots": False}
@@ -86,6 +93,8 @@ def build(names, pos, norm, workdir, tag):
         vin = {n: i for i, n in enumerate(names)}
     elif pos == "inputfield":
         vin = {"inp": {n: i for i, n in enumerate(names)}}
+    elif pos == "oneoffield":
+        vin = [{"one": {n: i}} for i, n in enumerate(names)]     # one assignment per member of the @oneOf input
     elif pos == "enumvalue":
         vin = {"e": list(names), "inp": {"e": names[0]}}
     else:
@@ -117,6 +126,8 @@ def main(tier, replay=None, selftest=False):
             if pos == "enumvalue":
                 esc = lambda n: n + "_" if n in kw else n
                 keyf = (lambda n: esc(camel(esc(n)))) if norm == "rust" else esc
+            elif pos == "oneoffield":
+                keyf = lambda n: n.replace("_", "").lower()      # variant identifiers: anything equal up to case / underscores is kept apart
             else:
                 keyf = snake
             for pi, pack in enumerate(packs(pool, keyf)):
@@ -189,18 +200,21 @@ def main(tier, replay=None, selftest=False):
             continue
         if payload is not None:
             vj.append({"id": tag + "|resp", "case": cid, "kind": "resp", "input": payload})
-        if vin is not None:
+        if isinstance(vin, list):
+            for k, one in enumerate(vin):
+                vj.append({"id": "%s|vars|%d" % (tag, k), "case": cid, "kind": "vars", "input": one})
+        elif vin is not None:
             vj.append({"id": tag + "|vars", "case": cid, "kind": "vars", "input": vin})
     obs = cons.run(vj)
     for j in vj:
-        tag, kind = j["id"].split("|")
+        tag, kind = j["id"].split("|")[:2]
         pos, norm, pack, sp, query, payload, vin = meta[tag]
         o = obs.get(j["id"], {})
         got = o.get("ok") if kind == "resp" else (o.get("ok") or {}).get("variables")
         want = j["input"]
         if selftest and kind == "resp" and pos == "alias":
             want = dict(want, o=dict(want["o"], selftest=1))
-        for n in pack:
+        for n in (pack if not j["id"].count("|") == 2 else pack[:1]):
             ck.count()
         if len(ck.cov["samples"]) < 3:
             ck.sample({"position": pos, "normalization": norm, "names": pack[:8], "query": query[:300]})
@@ -212,12 +226,12 @@ def main(tier, replay=None, selftest=False):
                 return v
             wrong = []
             try:
-                a, b = (want.get("o") or want.get("inp") or want), ((got or {}).get("o") or (got or {}).get("inp") or got or {})
+                a, b = (want.get("o") or want.get("inp") or want.get("one") or want), ((got or {}).get("o") or (got or {}).get("inp") or (got or {}).get("one") or got or {})
                 if isinstance(a, dict) and isinstance(b, dict):
                     wrong = sorted(set(a) ^ set(b)) or [k for k in a if a[k] != b.get(k)]
             except AttributeError:
                 pass
-            ck.violation("wire-%s" % tag, {"position": pos, "normalization": norm, "names": pack, "sent": want, "observed": o},
+            ck.violation("wire-%s" % j["id"].replace("|vars", "").replace("|resp", "").replace("|", "-"), {"position": pos, "normalization": norm, "names": pack, "sent": want, "observed": o},
                          "C11: position %s, normalization %s: the wire names differ from the GraphQL names (%s): expected %s, got %s" % (
                              pos, norm, wrong[:10], json.dumps(want)[:200], json.dumps(o)[:200]),
                          case_key="wire|%s|%s|%s" % (pos, norm, ",".join(wrong[:3])))
@@ -225,7 +239,7 @@ def main(tier, replay=None, selftest=False):
     ck.notes["keywords"] = len(kw)
     ck.assumptions += ["names that collide after the generator's own renaming (e.g. `self` / `Self`, `type` / `Type`) are placed in different modules",
                        "`true`, `false`, `null` are not legal enum value names in GraphQL and are not used as such"]
-    return ck.finish(exhaustive=True, rule="every keyword (52) and naming style of Names!Pool x 5 positions x 2 normalizations; distinct = (name, position, normalization)")
+    return ck.finish(exhaustive=True, rule="every keyword (52) and naming style of Names!Pool x 6 positions (incl. members of a @oneOf input) x 2 normalizations; distinct = (name, position, normalization)")
 
 
 if __name__ == "__main__":
